@@ -412,6 +412,30 @@ def run(ctx, anchors=None):
                  "and everything after the first newline is dropped" % (rf.name, n.get("n"), astq.estr(n["args"][1]) if len(n.get("args", [])) > 1 else "?"))
     ctx.floor("R08.6", nrd, 1, "reads of the script from stdin")
 
+    # ---- R08.7 "non-interactive" means: stdin or stdout is not a terminal. The two mode flags are what the reader, the logger and
+    # the final branch consult; each is assigned from isatty() of its stream and by nothing else (a later `pipe_in = false` for a
+    # convenience case makes the final branch go interactive although stdin is not a terminal).
+    ctx.rule("R08.7", "the mode flags pipe_in / pipe_out are assigned only from isatty() of their stream")
+    nmode = 0
+    for f in sorted(fb.funcs.values(), key=lambda f_: f_.id):
+        if f.body is None or f.file not in ("btcdeb.cpp", "functions.cpp", "functions.h", "instance.cpp", "instance.h"):
+            continue
+        for n in f.nodes():
+            tgt = n["lhs"] if n["k"] in ("assign", "cassign") else (n["e"] if n["k"] == "un" and n.get("op") in ("++", "--", "&") else None)
+            while tgt is not None and tgt.get("k") in ("cast", "paren"):
+                tgt = tgt["e"]
+            if tgt is None or tgt.get("k") != "ref" or tgt.get("dk") != "global" or tgt.get("n") not in ("pipe_in", "pipe_out"):
+                continue
+            nmode += 1
+            ctx.site()
+            want = "stdin" if tgt["n"] == "pipe_in" else "stdout"
+            rhs = astq.expand(f, n.get("rhs")) if n["k"] == "assign" else None      # `const bool tty = isatty(..); pipe_in = !tty` is the same
+            okm = rhs is not None and any(x["k"] == "call" and x.get("n") == "isatty" and any(y["k"] == "ref" and y.get("n") == want for y in walk(x)) for x in walk(rhs))
+            ctx.inst(okm, "R08.7", "mode-flag-from-isatty:%s@%s" % (tgt["n"], f.name), f.loc(n), "%s is set from isatty(%s)" % (tgt["n"], want),
+                     "`%s` in %s changes %s without consulting isatty(%s): the reader, the logger and the final interactive / non-interactive branch no longer agree on the mode (a run whose stdin is not a terminal can end at a prompt)"
+                     % (astq.estr(n)[:60], f.name, tgt["n"], want))
+    ctx.floor("R08.7", nmode, 2, "assignments of the mode flags")
+
 
 def _enclosing_stmt(func, n):
     cur = n
@@ -439,6 +463,7 @@ def _region(main, ch):
 
 
 MUTANTS = [
+    dict(name="mode-flag-cleared-for-empty-stdin", file="btcdeb.cpp", find="        if (input.empty()) fprintf(stderr, \"warning: no input\\n\");", replace="        if (input.empty() && ca.l.size() > 0) pipe_in = false;\n        if (input.empty()) fprintf(stderr, \"warning: no input\\n\");", expect=["R08.7:mode-flag-from-isatty:pipe_in@main"]),
     dict(name="stdin-script-single-read", file="btcdeb.cpp", find="        while (fgets(buf, 1024, stdin)) input += buf;", replace="        if (fgets(buf, 1024, stdin)) input += buf;", expect=["R08.6:stdin-read-to-the-end"]),
     dict(name="verdict-from-done-flag", file="btcdeb.cpp", find="        if (!ContinueScript(*env)) {", replace="        ContinueScript(*env);\n        if (!instance.at_end()) {", expect=["R08.5:status-used:ContinueScript@main"]),
     dict(name="main-catches-too-little", file="btcdeb.cpp",
